@@ -24,27 +24,107 @@ import numpy as np
 
 from ..contracts import attach, detach_all, quiet
 from ..refmodels import thinfilm_ref as R
+from ..util import precision
 
-RULE = ('single interfaces: a grid of (n0, n1) pairs x angle classes enumerated first, then random; stacks: random '
-        '1..6 (thorough 1..8) entries, real indices in [1, 4] (absorbing class: inner layers + i*[0, 0.5]), thickness '
-        '0..5 wavelengths incl. exact zeros, aoi 0 / oblique up to 89.5 deg or 0.5 deg below the smallest critical angle of '
-        'the stack, ambient 1 or 1..1.7, list-of-tuples and ndarray containers; batched: every trailing-shape class '
-        "(0-d, 1-d incl. length 1, 2-d, 3-d) x layers x real/complex x normal/oblique x pol.  A case is non-trivial unless "
-        'both media of a single interface are equal; distinct = distinct descriptor (all numeric parameters)')
+RULE = ('a single-precision warm-up first (config.precision = 32 and float32 stack arrays: single interfaces, thin stacks against '
+        'the Airy reference, energy, batched == loop, at single-precision tolerances), then everything else in double at full '
+        'tolerance (so a cache keyed without the precision would poison it); single interfaces: a grid of (n0, n1) pairs x angle '
+        'classes enumerated first, then random, arguments as python floats / numpy.float64 / 0-d arrays / int ambient; stacks: '
+        'every layer count 1..20 (thorough 1..40) enumerated first then random, real indices in [1, 4] (absorbing class: inner '
+        'layers + i*[0, 0.5]), thickness 0..5 wavelengths incl. exact zeros, aoi 0 / oblique up to 89.5 deg or 0.5 deg below the '
+        'smallest critical angle of the stack, ambient 1 or 1..1.7, list-of-tuples / float64 ndarray / complex ndarray / '
+        'Fortran-ordered ndarray containers; batched: every trailing-shape class (0-d, 1-d incl. length 1, 2-d, 3-d, 4-d) x '
+        'layers {1,2,3,5,8,13,20} x real/complex x normal/oblique x pol x C / Fortran / broadcast (non-contiguous) memory; '
+        'histories: ONE stack array object evaluated repeatedly while exactly one of ambient index / angle / wavelength / '
+        'polarisation changes, repeated, edited in place, passed inside a batch and again alone, each call judged against the '
+        'Airy reference.  A case is non-trivial unless both media of a single interface are equal; distinct = distinct '
+        'descriptor (all numeric parameters)')
 ASSUMPTIONS = ['the last stack entry is the exit medium (documented usage); its thickness only adds a phase to t',
                'power transmittance into a lossless exit medium is Re(n_e cos th_e)/(n0 cos th0) |t|^2 for both polarisations',
                'absorbing media are n + i k with k >= 0 (BYU / e^{-i w t} convention used by the module); absorbing exit media, '
                'gain media and angles at or beyond any critical angle of the stack are outside the stated domain',
                'critical_angle() is not asserted (argument order ambiguous in its docstring); the monitor uses its own asin(n1/n0)',
                'the sign of r_p is a convention: agreement between stack and Fresnel functions is required, the textbook '
-               'reference is only used to name the deviating function; phase of t is not compared']
+               'reference is only used to name the deviating function; phase of t is not compared',
+               'single precision (config.precision = 32 or float32 / complex64 stack arrays): energy to 5e-3, one-entry stack vs '
+               'Fresnel and thin (<= 4 layers, <= 0.5 wavelengths each) stacks vs the Airy reference to 1e-3, batched vs loop to 1e-4 '
+               '(measured round-off 2.4e-6, 1.7e-7, 5.1e-7, 0); thick or deep single-precision stacks are only held to the energy law',
+               'double precision: 1e-10 up to 8 layers, 1e-9 for 9..40 layers (measured <= 8.7e-13 against the Airy recursion)']
 REQUIRED = ['snell_aor.law', 'stack.energy-lossless', 'stack.energy-absorbing', 'fresnel.energy', 'stack-vs-fresnel.r',
             'stack-vs-fresnel.t', 'brewster.rp-zero', 'brewster.sign-change', 'brewster.angle', 'stack.airy-reference',
-            'stack.zero-thickness', 'stack.half-wave', 'batched.eq-loop']
+            'stack.zero-thickness', 'stack.half-wave', 'batched.eq-loop',
+            'precision32.single-interface', 'precision32.airy-reference', 'precision32.batched-eq-loop', 'precision32.energy',
+            'history.airy-reference', 'history.repeat', 'stack.argument-untouched', 'stack.deep']
 
 CTX = None
 TOL = 1e-10          # observed round-off on the pinned tree: <= 1e-13 (stack vs Airy), <= 4e-15 (energy)
+TOL_DEEP = 1e-9      # 9..40 layers: observed <= 8.7e-13
+LOW_ENERGY = 5e-3    # single precision: observed <= 2.4e-6
+LOW_AIRY = 1e-3      # single precision, thin stacks / single interfaces: observed <= 5.1e-7
+LOW_BATCH = 1e-4     # single precision, batched vs loop: observed 0
 TIR_MARGIN = math.radians(0.25)
+
+
+def _is32():
+    from prysm.conf import config
+    return config.precision is np.float32
+
+
+def tol_layers(L):
+    return TOL if L <= 8 else TOL_DEEP
+
+
+def _low(arr=None):
+    """single precision legitimately in the chain: the configuration, or float32 / complex64 stack data"""
+    dt = getattr(arr, 'dtype', None)
+    return _is32() or (dt is not None and dt.kind in 'fc' and dt.itemsize <= (4 if dt.kind == 'f' else 8))
+
+
+def attenuation(n, d, wavelength, n0, th0):
+    """Total amplitude attenuation exponent sum_j 2 pi / lambda * Im(sqrt(n_j^2 - (n0 sin th0)^2)) * d_j over the inner
+    layers (arrays of shape (L, ...)); the characteristic-matrix entries grow like exp(+that), so beyond a fraction of
+    log(max float) the transfer-matrix formulation overflows: an opaque stack, outside what the monitor can decide."""
+    n = np.asarray(n, dtype=complex)
+    d = np.real(np.asarray(d, dtype=complex))
+    if n.shape[0] < 2:
+        return np.zeros(n.shape[1:])
+    q = np.sqrt(n[:-1] ** 2 - (n0 * math.sin(th0)) ** 2)
+    return (2 * np.pi / float(wavelength) * np.abs(np.imag(q)) * d[:-1]).sum(axis=0)
+
+
+def attenuation_bound(low):
+    return 0.4 * float(np.log(np.finfo(np.float32 if low else np.float64).max))      # 35 / 284
+
+
+def attribute(base, arr, reproduces_in_default):
+    """Key of a failure seen in single precision: `base` when the same call with float64 / complex128 data under
+    precision 64 fails too (it is then not a precision effect; `reproduces_in_default()` re-runs it, only on failures),
+    else `base` + the configuration label."""
+    sfx = cfg_sfx(arr)
+    if not sfx:
+        return base
+    try:
+        with quiet():
+            if reproduces_in_default():
+                return base
+    except Exception:  # noqa
+        pass
+    return base + sfx
+
+
+def as_double(arr):
+    a = np.asarray(arr)
+    return a.astype(complex if a.dtype.kind == 'c' else float)
+
+
+def cfg_sfx(arr=None):
+    parts = []
+    if _is32():
+        parts.append('precision32')
+    dt = getattr(arr, 'dtype', None)
+    if dt is not None and dt.kind in 'fc' and dt.itemsize <= (4 if dt.kind == 'f' else 8):
+        parts.append('float32-stack')
+    return ('/' + '+'.join(parts)) if parts else ''
 
 
 def aoi_class(aoi):
@@ -64,7 +144,11 @@ def post_snell(token, args, kwargs, result):
     CTX.observe('snell_aor.law')
     scale = float(np.max(np.abs(lhs))) if lhs.size else 0.0
     err = float(np.max(np.abs(lhs - rhs))) if np.broadcast(lhs, rhs).size else 0.0
-    if not (err <= 1e-12 * max(scale, 1.0)):
+    def single(v):
+        dt = getattr(v, 'dtype', None)
+        return dt is not None and dt.kind in 'fc' and dt.itemsize <= (4 if dt.kind == 'f' else 8)
+    low = single(result) or single(a['n0']) or single(a['n1']) or single(a['theta'])      # a float32 operand rounds n0/n1
+    if not (err <= (1e-4 if low else 1e-12) * max(scale, 1.0)):
         CTX.violation('C17/snell_aor/law', 'snell_aor: n0 sin(theta0) != n1 sin(theta1)',
                       {'n0': a['n0'], 'n1': np.asarray(a['n1']), 'theta_rad': th, 'class': 'contract'}, err=err)
 
@@ -85,9 +169,7 @@ def post_stack(token, args, kwargs, result):
         return
     L = st.shape[0]
     n = st[:, 0, ...].reshape(L, -1)
-    r = np.asarray(result[0]).reshape(-1)
-    t = np.asarray(result[1]).reshape(-1)
-    if r.shape[0] != n.shape[1]:
+    if np.asarray(result[0]).size != n.shape[1]:
         return   # shape faults are reported by the batched monitor
     th0 = math.radians(aoi)
     s0 = n0 * math.sin(th0)
@@ -97,31 +179,63 @@ def post_stack(token, args, kwargs, result):
         tir = (nre.min(axis=0) < n0) & (s0 > lim)
         bad_exit = nim[-1] != 0
         gain = (nim < 0).any(axis=0)
-        out = tir | bad_exit | gain
+        opaque = attenuation(n, st[:, 1, ...].reshape(L, -1), a['wavelength'], n0, th0) > attenuation_bound(_low(st))
+        out = tir | bad_exit | gain | opaque
         lossless = (nim == 0).all(axis=0) & ~out
         absorbing = ~lossless & ~out
         ne = nre[-1]
         ce = np.sqrt(np.clip(1 - (s0 / ne) ** 2, 0, None))
-        T = ne * ce / (n0 * math.cos(th0)) * np.abs(t) ** 2
-        tot = np.abs(r) ** 2 + T
+
+    def totals(res):
+        r_ = np.asarray(res[0]).reshape(-1)
+        t_ = np.asarray(res[1]).reshape(-1)
+        with np.errstate(all='ignore'):
+            return np.abs(r_) ** 2 + ne * ce / (n0 * math.cos(th0)) * np.abs(t_) ** 2, r_, t_
+
+    def bad(tot_, etol_):
+        b1 = lossless.any() and not np.all(np.abs(tot_[lossless] - 1) <= etol_)        # NaN fails too
+        b2 = absorbing.any() and (not np.all(tot_[absorbing] <= 1 + etol_) or not np.all(tot_[absorbing] >= 0))
+        return bool(b1), bool(b2)
+
+    tot, r, t = totals(result)
     if out.any():
-        CTX.skip('energy-contract: outside domain (TIR / absorbing exit / gain)', int(out.sum()))
+        if opaque.any():
+            CTX.skip('energy-contract: opaque stack (attenuation beyond the floating-point range of the matrix method)', int(opaque.sum()))
+        if (out & ~opaque).any():
+            CTX.skip('energy-contract: outside domain (TIR / absorbing exit / gain)', int((out & ~opaque).sum()))
     batched = 'batched' if st.ndim > 2 else 'scalar'
+    low = _low(st)
+    etol = LOW_ENERGY if low else tol_layers(L)
     desc = {'fn': 'multilayer_stack_rt', 'pol': pol, 'aoi': aoi, 'n0': n0, 'wavelength': a['wavelength'], 'layers': L,
-            'stack': st if st.size <= 32 else {'shape': list(st.shape)}, 'class': 'contract'}
+            'stack': st if st.size <= 32 else {'shape': list(st.shape)}, 'dtype': str(st.dtype), 'precision': 32 if _is32() else 64,
+            'class': 'contract'}
+
+    def default_fails(which):
+        from prysm import thinfilm
+        with precision(64):
+            res2 = thinfilm.multilayer_stack_rt(as_double(st), a['wavelength'], pol, aoi=aoi, ambient_index=n0)    # bypasses the monitors
+        return bad(totals(res2)[0], tol_layers(L))[which]
+
+    if low:
+        CTX.observe('precision32.energy', int((lossless | absorbing).sum()))
+    b_lossless, b_absorbing = bad(tot, etol)
     if lossless.any():
         CTX.observe('stack.energy-lossless', int(lossless.sum()))
-        err = np.abs(tot[lossless] - 1)
-        if not np.all(err <= TOL):    # NaN fails too
-            CTX.violation(f'C17/stack/{pol}/energy-lossless/{aoi_class(aoi)}',
+        if b_lossless:
+            CTX.violation(attribute(f'C17/stack/{pol}/energy-lossless/{aoi_class(aoi)}', st, lambda: default_fails(0)),
                           f'lossless stack, {pol}-polarisation: R + T != 1 ({batched} call)', desc,
                           R_plus_T=tot[lossless][:4], r=r[:4], t=t[:4])
     if absorbing.any():
         CTX.observe('stack.energy-absorbing', int(absorbing.sum()))
-        v = tot[absorbing]
-        if not np.all(v <= 1 + TOL) or not np.all(v >= 0):
-            CTX.violation(f'C17/stack/{pol}/energy-absorbing/{aoi_class(aoi)}',
-                          f'absorbing stack, {pol}-polarisation: R + T > 1 ({batched} call)', desc, R_plus_T=v[:4])
+        if b_absorbing:
+            CTX.violation(attribute(f'C17/stack/{pol}/energy-absorbing/{aoi_class(aoi)}', st, lambda: default_fails(1)),
+                          f'absorbing stack, {pol}-polarisation: R + T > 1 ({batched} call)', desc, R_plus_T=tot[absorbing][:4])
+
+
+def install_monitors(ctx):
+    global CTX
+    CTX = ctx
+    install()
 
 
 def install():
@@ -131,29 +245,44 @@ def install():
 
 
 # ------------------------------------------------------------------------------------------ single interface
-def single_interface(ctx, tf, n0, n1, aoi, d, wl, desc, array_theta=False):
+def as_num(v, kind):
+    """the same number in another container (python float, numpy.float64 scalar, 0-d array, python int when integral)"""
+    if kind == 'np64':
+        return np.float64(v)
+    if kind == '0d':
+        return np.array(float(v))
+    if kind == 'int' and float(v) == int(v):
+        return int(v)
+    return float(v)
+
+
+def single_interface(ctx, tf, n0, n1, aoi, d, wl, desc, array_theta=False, num='py'):
     """All single-interface laws for one (n0, n1, aoi[deg]); at most one violation per polarisation, keyed by the
     function(s) that deviate from the textbook formula."""
     th0 = math.radians(aoi)
+    # containers handed to prysm (the laws themselves are evaluated with plain python floats); the ambient index is
+    # documented as a float: python float / numpy.float64 / python int only
+    n0c = as_num(n0, {'np64': 'np64', '0d': 'np64', 'int-ambient': 'int'}.get(num, 'py'))
+    n1c = as_num(n1, {'np64': 'np64', '0d': '0d', 'int-ambient': 'np64'}.get(num, 'py'))
     with ctx.guard('C17/single-interface', desc):
-        th1 = tf.snell_aor(n0, n1, aoi)
+        th1 = tf.snell_aor(n0c, n1c, aoi)
         th1 = float(np.real(th1))
         if array_theta:
             a0 = np.array([th0, th0, 0.5 * th0])
-            a1 = np.array([th1, th1, float(np.real(tf.snell_aor(n0, n1, 0.5 * aoi)))])
+            a1 = np.array([th1, th1, float(np.real(tf.snell_aor(n0c, n1c, 0.5 * aoi)))])
             pick = lambda v: float(np.asarray(v)[1])   # noqa: E731
         else:
             a0, a1 = th0, th1
             pick = float
-        got = {'fresnel_rs': pick(tf.fresnel_rs(n0, n1, a0, a1)), 'fresnel_ts': pick(tf.fresnel_ts(n0, n1, a0, a1)),
-               'fresnel_rp': pick(tf.fresnel_rp(n0, n1, a0, a1)), 'fresnel_tp': pick(tf.fresnel_tp(n0, n1, a0, a1))}
+        got = {'fresnel_rs': pick(tf.fresnel_rs(n0c, n1c, a0, a1)), 'fresnel_ts': pick(tf.fresnel_ts(n0c, n1c, a0, a1)),
+               'fresnel_rp': pick(tf.fresnel_rp(n0c, n1c, a0, a1)), 'fresnel_tp': pick(tf.fresnel_tp(n0c, n1c, a0, a1))}
         c0, c1 = math.cos(th0), math.sqrt(max(0.0, 1 - (n0 * math.sin(th0) / n1) ** 2))
         fac = n1 * c1 / (n0 * c0)
-        thB_deg = float(tf.brewsters_angle(n0, n1))
-        thB_rad = float(tf.brewsters_angle(n0, n1, deg=False))
+        thB_deg = float(tf.brewsters_angle(n0c, n1c))
+        thB_rad = float(tf.brewsters_angle(n0c, n1c, deg=False))
         for pol in 'sp':
             fr, ft = got['fresnel_r' + pol], got['fresnel_t' + pol]
-            sr, stt = tf.multilayer_stack_rt([(n1, d)], wl, pol, aoi=aoi, ambient_index=n0)
+            sr, stt = tf.multilayer_stack_rt([(n1c, d)], wl, pol, aoi=aoi, ambient_index=n0c)
             sr, stt = complex(sr), complex(stt)
             failed = []
             ctx.observe('fresnel.energy')
@@ -175,9 +304,9 @@ def single_interface(ctx, tf, n0, n1, aoi, d, wl, desc, array_theta=False):
                 if not (abs(thB_rad - refB) <= 1e-12 and abs(math.radians(thB_deg) - refB) <= 1e-12):
                     failed.append('brewster-angle')
                     dev['brewsters_angle'] = abs(thB_rad - refB) + abs(math.radians(thB_deg) - refB)
-                tB1 = float(np.real(tf.snell_aor(n0, n1, refB, degrees=False)))
+                tB1 = float(np.real(tf.snell_aor(n0c, n1c, refB, degrees=False)))
                 ctx.observe('brewster.rp-zero')
-                rB = float(tf.fresnel_rp(n0, n1, refB, tB1))
+                rB = float(tf.fresnel_rp(n0c, n1c, refB, tB1))
                 if not abs(rB) <= TOL:
                     failed.append('rp(brewster)!=0')
                     dev['fresnel_rp'] = max(dev['fresnel_rp'], abs(rB))
@@ -187,8 +316,8 @@ def single_interface(ctx, tf, n0, n1, aoi, d, wl, desc, array_theta=False):
                 if hi < math.radians(89.9) and (crit is None or hi < crit - math.radians(0.1)):
                     ctx.observe('brewster.sign-change')
                     lo = refB - delta
-                    rl = float(tf.fresnel_rp(n0, n1, lo, float(np.real(tf.snell_aor(n0, n1, lo, degrees=False)))))
-                    rh = float(tf.fresnel_rp(n0, n1, hi, float(np.real(tf.snell_aor(n0, n1, hi, degrees=False)))))
+                    rl = float(tf.fresnel_rp(n0c, n1c, lo, float(np.real(tf.snell_aor(n0c, n1c, lo, degrees=False)))))
+                    rh = float(tf.fresnel_rp(n0c, n1c, hi, float(np.real(tf.snell_aor(n0c, n1c, hi, degrees=False)))))
                     if not rl * rh < 0:
                         failed.append('rp-no-sign-change-at-brewster')
                         dev['fresnel_rp'] = max(dev['fresnel_rp'], 1.0)
@@ -213,19 +342,195 @@ def max_aoi(n0, nmin, rng_top=89.5):
 def run(ctx):
     global CTX
     CTX = ctx
+    from prysm.conf import config
+    old = 32 if config.precision is np.float32 else 64
     install()
     try:
         _run(ctx)
     finally:
+        config.precision = old
         detach_all()
+
+
+def random_stack(rng, L, absorb, wl, thin=False, nlo=1.0, kscale=None):
+    st = []
+    kscale = min(1.0, 6.0 / L) if kscale is None else kscale       # deep absorbing stacks: total attenuation stays representable
+    for l in range(L):
+        n = float(rng.uniform(nlo, 4))
+        if absorb and l < L - 1:
+            n = n + 1j * float(rng.uniform(0, 0.5)) * kscale
+        if thin:
+            d = float(rng.uniform(0, 0.5)) * wl
+        else:
+            d = 0.0 if rng.random() < 0.1 else float(rng.uniform(0, 5)) * wl
+        st.append((n, d))
+    return st
+
+
+def as_container(st, container):
+    """The stack in the container class of the case (all documented forms)."""
+    if container == 'list':
+        return st
+    cplx = any(isinstance(n, complex) for n, _ in st)
+    arr = np.asarray(st, dtype=complex if cplx else float)
+    if container == 'complex-ndarray':
+        return arr.astype(complex)
+    if container == 'fortran-ndarray':
+        return np.asfortranarray(arr)
+    if container == 'strided-ndarray':
+        big = np.zeros((arr.shape[0] * 2, 4), dtype=arr.dtype)
+        v = big[::2, 1:3]
+        v[...] = arr
+        return v
+    return arr
+
+
+def judge_stack(ctx, tf, desc, st, arg, wl, pol, aoi, n0, keyf, mon='stack.airy-reference', low=False, tol=None):
+    """One call of multilayer_stack_rt against the Airy recursion.  Returns (r, t) or None."""
+    L = len(st)
+    tol = tol if tol is not None else (LOW_AIRY if low else tol_layers(L))
+    att = float(attenuation(np.array([n for n, _ in st]), np.array([d for _, d in st]), wl, n0, math.radians(aoi)))
+    if att > attenuation_bound(low or _low(arg if isinstance(arg, np.ndarray) else None)):
+        ctx.skip('stack: opaque (attenuation beyond the floating-point range of the matrix method)')
+        return None
+    r, t = tf.multilayer_stack_rt(arg, wl, pol, aoi=aoi, ambient_index=n0)     # energy: contract
+    r, t = complex(r), complex(t)
+    rr, tt = R.stack_rt(st, wl, pol, math.radians(aoi), n0)
+    ctx.observe(mon)
+    ac = aoi_class(aoi)
+    er = min(abs(r - rr), abs(r + rr)) if pol == 'p' else abs(r - rr)
+    if not er <= tol:
+        ctx.violation(keyf(f'C17/stack/{pol}/ne-airy-reference/r/{ac}'), f'{pol}: r of the stack differs from the Airy recursion',
+                      desc, got=r, ref=rr, layers=L)
+    elif not abs(abs(t) - abs(tt)) <= tol * max(1.0, abs(tt)):
+        ctx.violation(keyf(f'C17/stack/{pol}/ne-airy-reference/t/{ac}'), f'{pol}: |t| of the stack differs from the Airy recursion',
+                      desc, got=abs(t), ref=abs(tt), layers=L)
+    return r, t
 
 
 def _run(ctx):
     from prysm import thinfilm as tf
     rng = ctx.rng('c17')
+    warmup32(ctx, tf)              # class C: single precision first, then everything below in double at full tolerance
+    singles(ctx, tf, rng)
+    stacks(ctx, tf, rng)
+    batched(ctx, tf, rng)
+    histories(ctx, tf)
 
-    # --- A. single interfaces: enumerated grid first (smallest / simplest first), then random -----------------
+    # critical_angle: exercised for reach only, never asserted (argument order ambiguous)
+    if ctx.shard == 0:
+        with quiet(), np.errstate(all='ignore'):
+            ctx.note('critical_angle_observed_not_asserted', {'critical_angle(1.0, 1.5)': float(tf.critical_angle(1.0, 1.5)),
+                                                              'critical_angle(1.5, 1.0)': float(tf.critical_angle(1.5, 1.0)),
+                                                              'rad(1.0, 1.5)': float(tf.critical_angle(1.0, 1.5, deg=False))})
+
+
+# --- 0. single-precision warm-up ----------------------------------------------------------------------------------
+def warmup32(ctx, tf):
+    """config.precision = 32 (and float32 / complex64 stack arrays under either configuration) for every routine the
+    double-precision workloads use afterwards.  Laws at single-precision tolerances; thick / deep stacks only through the
+    energy contract."""
+    rng = ctx.rng('c17-p32')
+    # single interfaces: one-entry stack == textbook Fresnel
+    for _ in range(ctx.share(ctx.pick(120, 4000))):
+        n0 = 1.0 if rng.random() < 0.4 else float(rng.uniform(1, 1.7))
+        n1 = float(rng.uniform(1, 4))
+        aoi = 0.0 if rng.random() < 0.2 else float(rng.uniform(0, max_aoi(n0, n1)))
+        th0 = math.radians(aoi)
+        c0, c1 = math.cos(th0), math.sqrt(max(0.0, 1 - (n0 * math.sin(th0) / n1) ** 2))
+        desc = {'wl': 'p32-single-interface', 'n0': n0, 'n1': n1, 'aoi': aoi, 'precision': 32,
+                'class': f'p32:iface:{"external" if n0 < n1 else "internal"}:{aoi_class(aoi)}'}
+        ctx.case(desc, nontrivial=n0 != n1)
+        with precision(32), ctx.guard('C17/single-interface/precision32', desc):
+            for pol in 'sp':
+                sr, stt = tf.multilayer_stack_rt([(n1, float(rng.uniform(0, 3)))], 0.5, pol, aoi=aoi, ambient_index=n0)
+                rr, tt = R.interface(pol, n0, c0, n1, c1)
+                ctx.observe('precision32.single-interface')
+                if not (abs(complex(sr) - rr) <= LOW_AIRY and abs(abs(complex(stt)) - abs(tt)) <= LOW_AIRY * max(1.0, abs(tt))):
+                    def dflt(pol=pol, rr=rr, tt=tt):
+                        with precision(64):
+                            a_, b_ = tf.multilayer_stack_rt([(n1, 1.0)], 0.5, pol, aoi=aoi, ambient_index=n0)
+                        return not (abs(complex(a_) - rr) <= TOL and abs(abs(complex(b_)) - abs(tt)) <= TOL * max(1.0, abs(tt)))
+                    ctx.violation(attribute(f'C17/single-interface/{pol}/stack_r+stack_t', None, dflt), f'single interface, {pol}: one-entry stack differs from '
+                                  'the textbook Fresnel coefficients beyond single-precision round-off', desc, r=[complex(sr), rr], t=[abs(complex(stt)), abs(tt)])
+    # thin stacks against the Airy reference in the four (array dtype, precision) combinations; thick / deep ones: energy only
+    cfgs = [('float64', 32), ('float32', 32), ('float32', 64)]
+    for it in range(ctx.share(ctx.pick(240, 8000))):
+        dt, prec = cfgs[it % 3]
+        thin = it % 4 != 3
+        L = 1 + it % 4 if thin else int(rng.integers(1, 21))
+        absorb = L > 1 and rng.random() < 0.25
+        n0 = 1.0 if rng.random() < 0.5 else float(rng.uniform(1, 1.5))
+        wl = float(rng.uniform(0.3, 1.5))
+        st = random_stack(rng, L, absorb, wl, thin=thin, nlo=1.45 if thin else 1.0, kscale=min(1.0, 1.5 / L))
+        arr = np.asarray(st, dtype=(np.complex64 if dt == 'float32' else complex) if absorb else dt)
+        st = [((complex(a) if absorb else float(np.real(a))), float(np.real(b))) for a, b in arr]      # the values the library sees
+        nmin = min(np.real(n) for n, _ in st)
+        aoi = 0.0 if rng.random() < 0.2 else float(rng.uniform(0, min(80.0, max_aoi(n0, nmin))))
+        desc = {'wl': 'p32-stack', 'stack': [[n, d] for n, d in st], 'n0': n0, 'aoi': aoi, 'wavelength': wl, 'dtype': str(arr.dtype),
+                'precision': prec, 'thin': thin, 'class': f'p32:stack:{"thin" if thin else "thick"}:L{L}:{arr.dtype}/p{prec}'}
+        ctx.case(desc)
+        with precision(prec):
+            for pol in 'sp':
+                with ctx.guard(f'C17/stack/{pol}/precision32', desc):
+                    if thin:
+                        def dflt(pol=pol):
+                            with precision(64):
+                                a_, b_ = tf.multilayer_stack_rt(as_double(arr), wl, pol, aoi=aoi, ambient_index=n0)
+                            rr, tt = R.stack_rt(st, wl, pol, math.radians(aoi), n0)
+                            er = min(abs(complex(a_) - rr), abs(complex(a_) + rr)) if pol == 'p' else abs(complex(a_) - rr)
+                            return not (er <= TOL and abs(abs(complex(b_)) - abs(tt)) <= TOL * max(1.0, abs(tt)))
+                        judge_stack(ctx, tf, desc, st, arr, wl, pol, aoi, n0, lambda k: attribute(k, arr, dflt), mon='precision32.airy-reference', low=True)
+                    else:
+                        tf.multilayer_stack_rt(arr, wl, pol, aoi=aoi, ambient_index=n0)        # the energy contract decides
+    # batched == loop in single precision
+    for it in range(ctx.share(ctx.pick(24, 800))):
+        g = np.random.default_rng(ctx.subseed(rng))
+        L = int(g.integers(1, 8))
+        trail = [(3,), (2, 3), (1,), (2, 1, 2)][it % 4]
+        dt, prec = cfgs[it % 3]
+        n = g.uniform(1.45, 4, (L,) + trail)
+        d = g.uniform(0, 2, (L,) + trail)
+        aoi = float(g.uniform(1, 85)) if it % 2 else 0.0
+        n0 = 1.0 if g.random() < 0.5 else float(g.uniform(1, 1.4))
+        stack = np.stack([n, d], axis=1).astype(dt)
+        desc = {'wl': 'p32-batched', 'trail': list(trail), 'layers': L, 'aoi': aoi, 'n0': n0, 'dtype': dt, 'precision': prec,
+                'class': f'p32:batched:{len(trail)}d:{dt}/p{prec}'}
+        ctx.case(desc)
+        with precision(prec):
+            for pol in 'sp':
+                def dflt(pol=pol):
+                    with precision(64):
+                        s64 = as_double(stack)
+                        r_, t_ = tf.multilayer_stack_rt(s64, 0.7, pol, aoi=aoi, ambient_index=n0)
+                        for ix in np.ndindex(*trail):
+                            a_, b_ = tf.multilayer_stack_rt([(s64[(l, 0) + ix], s64[(l, 1) + ix]) for l in range(L)], 0.7, pol, aoi=aoi, ambient_index=n0)
+                            if not (abs(complex(np.asarray(r_)[ix]) - complex(a_)) <= 1e-10 and
+                                    abs(complex(np.asarray(t_)[ix]) - complex(b_)) <= 1e-10 * max(1.0, abs(complex(b_)))):
+                                return True
+                    return False
+                tcls = {1: '1d', 2: '2d', 3: '3d'}[len(trail)] if trail != (1,) else '1d-len1'
+                base = f'C17/batched/{pol}/{tcls}/{aoi_class(aoi)}'
+                key = base if base in ctx.violations else base + cfg_sfx(stack)
+                with ctx.guard(key, desc):
+                    r, t = tf.multilayer_stack_rt(stack, 0.7, pol, aoi=aoi, ambient_index=n0)
+                    rl = np.empty(trail, dtype=complex)
+                    tl = np.empty(trail, dtype=complex)
+                    for ix in np.ndindex(*trail):
+                        s = np.asarray([(stack[(l, 0) + ix], stack[(l, 1) + ix]) for l in range(L)], dtype=dt)
+                        a, b = tf.multilayer_stack_rt(s, 0.7, pol, aoi=aoi, ambient_index=n0)
+                        rl[ix], tl[ix] = complex(a), complex(b)
+                    ctx.observe('precision32.batched-eq-loop')
+                    okr = np.asarray(r).shape == rl.shape and np.all(np.abs(np.asarray(r) - rl) <= LOW_BATCH)
+                    okt = okr and np.all(np.abs(np.asarray(t) - tl) <= LOW_BATCH * max(1.0, float(np.max(np.abs(tl)))))
+                    if not (okr and okt):
+                        ctx.violation(attribute(base, stack, dflt), f'batched {"t" if okr else "r"} != per-element loop ({pol}, single precision)', desc)
+
+
+# --- A. single interfaces: enumerated grid first (smallest / simplest first), then random --------------------------
+def singles(ctx, tf, rng):
     idx = [1.5, 1.0, 1.33, 2.0, 4.0, 1.7]
+    nums = ['py', 'np64', '0d', 'int-ambient']
     k = -1
     for n0 in [1.0, 1.5, 1.33, 1.7]:
         for n1 in idx:
@@ -240,11 +545,12 @@ def _run(ctx):
                     continue
                 kind = 'matched' if n0 == n1 else ('external' if n0 < n1 else 'internal')
                 arr = (k % 3 == 2)
-                desc = {'wl': 'single-interface', 'n0': n0, 'n1': n1, 'aoi': aoi, 'd': 0.0, 'wavelength': 0.5, 'array_theta': arr,
-                        'class': f'iface:{kind}:{cls}' + (':array-theta' if arr else '')}
+                num = nums[(k // 3) % 4]
+                desc = {'wl': 'single-interface', 'n0': n0, 'n1': n1, 'aoi': aoi, 'd': 0.0, 'wavelength': 0.5, 'array_theta': arr, 'numbers': num,
+                        'class': f'iface:{kind}:{cls}' + (':array-theta' if arr else '') + (f':{num}' if num != 'py' else '')}
                 ctx.case(desc, nontrivial=(n0 != n1))
-                single_interface(ctx, tf, n0, n1, aoi, 0.0, 0.5, desc, array_theta=arr)
-    for _ in range(ctx.share(ctx.pick(600, 12000))):
+                single_interface(ctx, tf, n0, n1, aoi, 0.0, 0.5, desc, array_theta=arr, num=num)
+    for _ in range(ctx.share(ctx.pick(600, 40000))):
         n0 = 1.0 if rng.random() < 0.4 else float(rng.uniform(1, 1.7))
         n1 = float(rng.uniform(1, 4))
         amax = max_aoi(n0, n1)
@@ -253,58 +559,65 @@ def _run(ctx):
             else ('oblique', float(rng.uniform(0, amax)))
         kind = 'external' if n0 < n1 else 'internal'
         arr = rng.random() < 0.2
+        num = nums[int(rng.integers(4))] if rng.random() < 0.3 else 'py'
         desc = {'wl': 'single-interface', 'n0': n0, 'n1': n1, 'aoi': aoi, 'd': float(rng.uniform(0, 3)),
-                'wavelength': float(rng.uniform(0.2, 2.0)), 'array_theta': arr,
-                'class': f'iface:{kind}:{cls}' + (':array-theta' if arr else '')}
+                'wavelength': float(rng.uniform(0.2, 2.0)), 'array_theta': arr, 'numbers': num,
+                'class': f'iface:{kind}:{cls}' + (':array-theta' if arr else '') + (f':{num}' if num != 'py' else '')}
         ctx.case(desc)
-        single_interface(ctx, tf, n0, n1, aoi, desc['d'], desc['wavelength'], desc, array_theta=arr)
+        single_interface(ctx, tf, n0, n1, aoi, desc['d'], desc['wavelength'], desc, array_theta=arr, num=num)
 
-    # --- B. stacks: energy (contract), Airy reference, zero-thickness and half-wave insertions --------------------
-    Lmax = ctx.pick(6, 8)
-    for it in range(ctx.share(ctx.pick(1000, 24000))):
-        L = 1 + (it % Lmax) if it < 4 * Lmax else int(rng.integers(1, Lmax + 1))
+
+# --- B. stacks: energy (contract), Airy reference, zero-thickness and half-wave insertions ---------------------------
+CONTAINERS = ['list', 'ndarray', 'complex-ndarray', 'fortran-ndarray', 'strided-ndarray']
+
+
+def stacks(ctx, tf, rng):
+    Lmax = ctx.pick(20, 40)
+    nst = ctx.share(ctx.pick(1000, 100000))
+    for it in range(nst):
+        # every layer count 1..Lmax first (twice: lossless and with absorbing inner layers), then random with a tail of deep stacks
+        if it < 2 * Lmax:
+            L = 1 + (it + ctx.shard) % Lmax
+        else:
+            L = int(rng.integers(1, 9)) if rng.random() < 0.6 else int(rng.integers(9, Lmax + 1))
         n0 = 1.0 if rng.random() < 0.5 else float(rng.uniform(1, 1.7))
-        absorb = L > 1 and rng.random() < 0.3
+        absorb = L > 1 and (rng.random() < 0.3 if it >= 2 * Lmax else it >= Lmax)
         wl = float(rng.uniform(0.2, 2.0))
-        st = []
-        for l in range(L):
-            n = float(rng.uniform(1, 4))
-            if absorb and l < L - 1:
-                n = n + 1j * float(rng.uniform(0, 0.5))
-            d = 0.0 if rng.random() < 0.1 else float(rng.uniform(0, 5)) * wl
-            st.append((n, d))
+        st = random_stack(rng, L, absorb, wl)
         nmin = min(np.real(n) for n, _ in st)
         amax = max_aoi(n0, nmin)
         u = rng.random()
         aoi = 0.0 if u < 0.2 else float(rng.uniform(0, amax)) if u < 0.9 else float(rng.uniform(min(80.0, amax), amax))
-        container = ['list', 'ndarray'][int(rng.integers(2))]
+        container = CONTAINERS[int(rng.integers(len(CONTAINERS)))]
         kind = 'absorbing' if absorb else 'lossless'
-        desc = {'wl': 'stack', 'stack': [[n, d] for n, d in st], 'n0': n0, 'aoi': aoi, 'wavelength': wl, 'container': container,
+        desc = {'wl': 'stack', 'stack': [[n, d] for n, d in st] if L <= 8 else {'layers': L, 'first': [list(st[0]), list(st[1])]},
+                'layers': L, 'n0': n0, 'aoi': aoi, 'wavelength': wl, 'container': container, 'it': it,
                 'class': f'stack:{kind}:L{L}:{aoi_class(aoi)}'}
         ctx.case(desc)
-        arg = st if container == 'list' else np.asarray(st)
+        arg = as_container(st, container)
+        keep = None if container == 'list' else np.array(arg, copy=True)
         th0 = math.radians(aoi)
+        TL = tol_layers(L)
+        if L > 8:
+            ctx.observe('stack.deep')
         for pol in 'sp':
             ac = aoi_class(aoi)
             with ctx.guard(f'C17/stack/{pol}', desc):
-                r, t = tf.multilayer_stack_rt(arg, wl, pol, aoi=aoi, ambient_index=n0)     # energy: contract
-                r, t = complex(r), complex(t)
-                rr, tt = R.stack_rt(st, wl, pol, th0, n0)
-                ctx.observe('stack.airy-reference')
-                er = min(abs(r - rr), abs(r + rr)) if pol == 'p' else abs(r - rr)
-                if not er <= TOL:
-                    ctx.violation(f'C17/stack/{pol}/ne-airy-reference/r/{ac}', f'{pol}: r of the stack differs from the Airy recursion',
-                                  desc, got=r, ref=rr)
-                elif not abs(abs(t) - abs(tt)) <= TOL * max(1.0, abs(tt)):
-                    ctx.violation(f'C17/stack/{pol}/ne-airy-reference/t/{ac}', f'{pol}: |t| of the stack differs from the Airy recursion',
-                                  desc, got=abs(t), ref=abs(tt))
+                res = judge_stack(ctx, tf, desc, st, arg, wl, pol, aoi, n0, lambda k: k)
+                if res is None:
+                    continue
+                r, t = res
+                if keep is not None:
+                    # class A: the caller's array is re-used for the second polarisation and must still hold the stack
+                    ctx.require('stack.argument-untouched', np.array_equal(arg, keep), 'C17/stack/argument-mutated',
+                                'multilayer_stack_rt modified the stack array it was given', desc)
                 # zero-thickness layer at a non-final position
                 p = int(rng.integers(0, L))
                 nz = float(rng.uniform(max(1.0, nmin), 4)) + (1j * float(rng.uniform(0, 0.5)) if absorb else 0)
                 st0 = st[:p] + [(nz, 0.0)] + st[p:]
                 r0, t0 = tf.multilayer_stack_rt(st0, wl, pol, aoi=aoi, ambient_index=n0)
                 ctx.observe('stack.zero-thickness')
-                if not (abs(complex(r0) - r) <= TOL and abs(complex(t0) - t) <= TOL * max(1.0, abs(t))):
+                if not (abs(complex(r0) - r) <= TL and abs(complex(t0) - t) <= TL * max(1.0, abs(t))):
                     ctx.violation(f'C17/stack/{pol}/zero-thickness-layer/{ac}',
                                   f'{pol}: a zero-thickness layer at a non-final position changes r or t', desc,
                                   position=p, n_inserted=nz, r=[r, complex(r0)], t=[t, complex(t0)])
@@ -315,23 +628,27 @@ def _run(ctx):
                 st1 = st[:p] + [(nh, dh)] + st[p:]
                 r1, t1 = tf.multilayer_stack_rt(st1, wl, pol, aoi=aoi, ambient_index=n0)
                 ctx.observe('stack.half-wave')
-                if not (abs(abs(r1) - abs(r)) <= TOL and abs(abs(t1) - abs(t)) <= TOL * max(1.0, abs(t))):
+                if not (abs(abs(r1) - abs(r)) <= TL and abs(abs(t1) - abs(t)) <= TL * max(1.0, abs(t))):
                     ctx.violation(f'C17/stack/{pol}/half-wave-layer/{ac}',
                                   f'{pol}: a half-wave (absentee) layer changes |r| or |t|', desc,
                                   position=p, n_inserted=nh, d_inserted=dh, r=[abs(r), abs(r1)], t=[abs(t), abs(t1)])
+    ctx.note('stacks', f'every layer count 1..{Lmax} enumerated (lossless and absorbing), then random with 40% deep (9..{Lmax}) stacks')
 
-    # --- C. batched == loop -----------------------------------------------------------------------------------
+
+# --- C. batched == loop -------------------------------------------------------------------------------------------------
+def batched(ctx, tf, rng):
     trails = [((), '0d'), ((1,), '1d-len1'), ((3,), '1d'), ((1, 1), '2d-1x1'), ((2, 3), '2d'), ((3, 1), '2d'), ((1, 4), '2d'),
-              ((2, 1, 3), '3d'), ((2, 2, 2), '3d')]
+              ((2, 1, 3), '3d'), ((2, 2, 2), '3d'), ((2, 1, 2, 2), '4d')]
     if not ctx.quick:
-        trails += [((17,), '1d'), ((5, 4), '2d'), ((3, 2, 4), '3d'), ((2, 1, 2, 2), '4d')]
+        trails += [((17,), '1d'), ((64,), '1d'), ((5, 4), '2d'), ((16, 9), '2d'), ((3, 2, 4), '3d'), ((4, 3, 5), '3d'), ((2, 3, 1, 2), '4d'),
+                   ((2, 1, 2, 1, 3), '5d')]
     combos = []
     for trail, tcls in trails:
-        for L in (1, 2, 3, 5):
+        for L in ((1, 2, 3, 5, 8, 13, 20) if len(trail) <= 2 else (1, 2, 5, 13)):
             for cplx in (False, True):
                 for ob in (False, True):
                     combos.append((trail, tcls, L, cplx, ob))
-    reps = ctx.pick(2, 12)
+    reps = ctx.pick(1, 16)
     k = -1
     for rep in range(reps):
         for trail, tcls, L, cplx, ob in combos:
@@ -341,8 +658,13 @@ def _run(ctx):
             sub = ctx.subseed(rng)
             g = np.random.default_rng(sub)
             n0 = 1.0 if g.random() < 0.5 else float(g.uniform(1, 1.4))
+            vary = ['both', 'both', 'thickness-only', 'index-only'][k % 4]        # batches in which only one quantity varies
             n = g.uniform(1.45, 4, (L,) + trail)
             d = g.uniform(0, 2, (L,) + trail)
+            if vary == 'thickness-only':
+                n = np.broadcast_to(n[(slice(None),) + (0,) * len(trail)].reshape((L,) + (1,) * len(trail)), (L,) + trail).copy()
+            if vary == 'index-only':
+                d = np.broadcast_to(d[(slice(None),) + (0,) * len(trail)].reshape((L,) + (1,) * len(trail)), (L,) + trail).copy()
             d[g.random(d.shape) < 0.1] = 0.0
             if cplx:
                 n = n + 1j * g.uniform(0, 0.4, n.shape)
@@ -350,9 +672,16 @@ def _run(ctx):
             aoi = float(g.uniform(1, 89.5)) if ob else 0.0
             wl = float(g.uniform(0.3, 1.5))
             stack = np.stack([n, d.astype(n.dtype)], axis=1)
+            layout = ['C', 'F', 'C', 'moved'][(k // 4) % 4]
+            if layout == 'F':
+                stack = np.asfortranarray(stack)
+            elif layout == 'moved' and stack.ndim > 2:
+                stack = np.moveaxis(np.ascontiguousarray(np.moveaxis(stack, -1, 0)), 0, -1)      # same values, non-contiguous view
+            keep = np.array(stack, copy=True)
             for pol in 'sp':
                 desc = {'wl': 'batched', 'trail': list(trail), 'layers': L, 'complex': cplx, 'aoi': aoi, 'n0': n0, 'wavelength': wl,
-                        'pol': pol, 'subseed': sub, 'class': f'batched:{tcls}:{"complex" if cplx else "real"}:{aoi_class(aoi)}'}
+                        'pol': pol, 'subseed': sub, 'varies': vary, 'layout': layout,
+                        'class': f'batched:{tcls}:{"complex" if cplx else "real"}:{aoi_class(aoi)}'}
                 ctx.case(desc)
                 key = f'C17/batched/{pol}/{tcls}/{aoi_class(aoi)}'
                 with ctx.guard(key, desc):
@@ -364,18 +693,92 @@ def _run(ctx):
                         s = [(n[(l,) + ix], d[(l,) + ix]) for l in range(L)]
                         a, b = tf.multilayer_stack_rt(s, wl, pol, aoi=aoi, ambient_index=n0)
                         rl[ix], tl[ix] = complex(a), complex(b)
+                    rt_ = 1e-11 if L <= 8 else 1e-10
                     ok = ctx.close('batched.eq-loop', r, rl, key, f'batched r != per-element loop ({tcls}, {pol})', desc,
-                                   rtol=1e-11, scale=1.0)
+                                   rtol=rt_, scale=1.0)
                     if ok:
                         ctx.close('batched.eq-loop', t, tl, key, f'batched t != per-element loop ({tcls}, {pol})', desc,
-                                  rtol=1e-11, scale=max(1.0, float(np.max(np.abs(tl)))))
+                                  rtol=rt_, scale=max(1.0, float(np.max(np.abs(tl)))))
+                    ctx.require('stack.argument-untouched', np.array_equal(stack, keep), 'C17/stack/argument-mutated',
+                                'multilayer_stack_rt modified the stack array it was given', desc)
 
-    # critical_angle: exercised for reach only, never asserted (argument order ambiguous)
-    if ctx.shard == 0:
-        with quiet(), np.errstate(all='ignore'):
-            ctx.note('critical_angle_observed_not_asserted', {'critical_angle(1.0, 1.5)': float(tf.critical_angle(1.0, 1.5)),
-                                                              'critical_angle(1.5, 1.0)': float(tf.critical_angle(1.5, 1.0)),
-                                                              'rad(1.0, 1.5)': float(tf.critical_angle(1.0, 1.5, deg=False))})
+
+# --- D. histories: one stack object, one thing changes per call -------------------------------------------------------------
+def histories(ctx, tf):
+    """Class B / A: the SAME stack array object is evaluated again and again while exactly one of ambient index, angle,
+    wavelength, polarisation changes, while nothing changes (repeat), after it was edited in place, and after it travelled
+    inside a batched call.  Every call is judged against the Airy recursion (a process-independent reference); a failure
+    that the plain stack workload already showed in this process keeps the plain key."""
+    rng = ctx.rng('c17-history')
+    nh = ctx.pick(40, 4000)
+    for h in range(nh):
+        if not ctx.mine(h):
+            continue
+        g = np.random.default_rng(ctx.subseed(rng))
+        L = [1, 2, 3, 5, 8, 12, 20][h % 7]
+        absorb = L > 1 and h % 3 == 2
+        wls = [float(g.uniform(0.4, 0.7)), float(g.uniform(0.8, 1.6))]
+        st = random_stack(g, L, absorb, wls[0], nlo=1.3)
+        arr = np.asarray(st, dtype=complex if absorb else float)
+        n0s = [1.0, float(g.uniform(1.05, 1.3))]
+        nmin = min(np.real(n) for n, _ in st)
+        amax = min(max_aoi(n0s[0], nmin), max_aoi(n0s[1], nmin), 85.0)
+        aois = [float(g.uniform(5, amax)), float(g.uniform(5, amax)), 0.0]
+        state = {'n0': 0, 'aoi': 0, 'wl': 0, 'pol': 's'}
+        script = ['first', 'ambient', 'repeat', 'aoi', 'wavelength', 'pol', 'ambient', 'aoi', 'in-place-edit', 'repeat', 'after-batched',
+                  'aoi', 'ambient', 'wavelength', 'pol', 'repeat']
+        if h >= 14:
+            script = ['first'] + [script[1 + int(i)] for i in g.integers(0, len(script) - 1, ctx.pick(12, 40))]
+        last = None
+        first_fail = [None]
+        for si, what in enumerate(script):
+            if what == 'ambient':
+                state['n0'] = 1 - state['n0']
+            elif what == 'aoi':
+                state['aoi'] = (state['aoi'] + 1 + int(g.integers(0, 2))) % 3
+            elif what == 'wavelength':
+                state['wl'] = 1 - state['wl']
+            elif what == 'pol':
+                state['pol'] = 'p' if state['pol'] == 's' else 's'
+            elif what == 'in-place-edit':
+                # same object, new content (a memo keyed on the object would now be stale)
+                j = int(g.integers(0, L))
+                arr[j, 1] = float(g.uniform(0, 3)) * wls[0]
+                if j < L - 1 or not absorb:
+                    arr[j, 0] = float(g.uniform(1.3, 4)) + (1j * float(g.uniform(0, 0.5)) if absorb and j < L - 1 else 0)
+                nmin_new = float(np.min(np.real(arr[:, 0])))
+                if nmin_new < nmin:
+                    arr[j, 0] = nmin + (arr[j, 0] - np.real(arr[j, 0]))
+            elif what == 'after-batched':
+                # the same layers travel through the batched code path (as one element of a batch), then alone again
+                other = np.stack([arr, arr * 1.0], axis=-1)
+                other[:, 1, 1] *= 0.5
+                with ctx.guard('C17/history/batched', {'class': 'history'}):
+                    tf.multilayer_stack_rt(other, wls[state['wl']], state['pol'], aoi=aois[state['aoi']], ambient_index=n0s[state['n0']])
+            n0, aoi, wl, pol = n0s[state['n0']], aois[state['aoi']], wls[state['wl']], state['pol']
+            cur = [((complex(a) if absorb else float(np.real(a))), float(np.real(b))) for a, b in arr]
+            desc = {'wl': 'history', 'history': h, 'step': si, 'changed': what, 'layers': L, 'absorbing': absorb, 'n0': n0, 'aoi': aoi, 'wavelength': wl,
+                    'pol': pol, 'stack': [[n, d] for n, d in cur] if L <= 5 else {'layers': L}, 'script': script[:si + 1][-6:],
+                    'class': f'history:{what}:L{L}:{"absorbing" if absorb else "lossless"}'}
+            ctx.case(desc)
+
+            def keyf(k, what=what):
+                if k in ctx.violations:
+                    return k
+                first_fail[0] = first_fail[0] or what
+                return k.replace('/ne-airy-reference/', f'/history:{first_fail[0]}/ne-airy-reference/')
+            keep = np.array(arr, copy=True)
+            with ctx.guard(f'C17/stack/{pol}/history', desc):
+                res = judge_stack(ctx, tf, desc, cur, arr, wl, pol, aoi, n0, keyf, mon='history.airy-reference')
+                ctx.require('stack.argument-untouched', np.array_equal(arr, keep), 'C17/stack/argument-mutated',
+                            'multilayer_stack_rt modified the stack array it was given', desc)
+                if what == 'repeat' and last is not None and res is not None:
+                    ctx.observe('history.repeat')
+                    if not (res[0] == last[0] and res[1] == last[1]):
+                        ctx.violation(f'C17/stack/{pol}/history:repeat-call-differs', 'the same call with the same argument objects returns a different '
+                                      'result the second time', desc, first=list(last), second=list(res))
+                last = res
+    ctx.note('histories', f'{nh} histories on one stack array object each (layers 1..20), one quantity changed per call')
 
 
 def replay(ctx, rec):
